@@ -4,7 +4,12 @@
 W="$1"; cd "$W" || exit 2
 export CARGO_NET_OFFLINE=true
 git apply --check -R patch.diff 2>/dev/null || { echo "patch not applied in worktree"; exit 2; }
-cargo test --offline --lib -- --test-threads 8 > confirm.with.txt 2>&1
+# other test runs on this machine share the unit tests' fixed scratch directories: an aborted run is repeated
+for try in 1 2 3 4; do
+  cargo test --offline --lib -- --test-threads 4 > confirm.with.txt 2>&1
+  grep -q '^test result' confirm.with.txt && break
+  sleep 5
+done
 echo "WITH: $(grep -E '^test result' confirm.with.txt)"
 echo "failed with: $(grep -E '^test .* FAILED' confirm.with.txt | sed 's/test \(.*\) \.\.\. FAILED/\1/' | tr '\n' ' ')"
 git apply -R patch.diff
